@@ -213,6 +213,25 @@ def model_norm(x, ord=None, axis=None, keepdims=False):
     return np.sqrt(sq)
 
 
+def _method_ufunc(name):
+    """np.sqrt / np.cos / ... on object arrays call the element's method of the same name, which plain python numbers
+    (exact constants sitting in a symbolic array) do not have: lift those to field constants first"""
+    def f(x, *args, **kw):
+        if isinstance(x, SYM) or (hasattr(x, name) and not isinstance(x, np.ndarray) and not isinstance(x, (int, float, complex, np.number))):
+            return getattr(x, name)(*args)
+        if is_obj(x):
+            if kw.get('out') is not None or kw.get('where') is not None:
+                raise Inconclusive(f"np.{name} with out=/where= on symbolic data")
+            def one(e):
+                if isinstance(e, (int, float, fractions.Fraction, np.integer, np.floating)) and not isinstance(e, (bool, np.bool_)):
+                    e = F.lift(e)
+                return getattr(e, name)(*args)
+            return _elementwise(x, one)
+        return _ORIG[name](x, *args, **kw)
+    f.__name__ = f"model_{name}"
+    return f
+
+
 def _no_model(name):
     def f(a, *args, **kw):
         if is_obj(np.asarray(a)):
@@ -239,6 +258,9 @@ _NP_PATCHES = {
     'zeros': model_zeros, 'ones': model_ones, 'full': model_full, 'identity': model_identity, 'eye': model_eye,
     'zeros_like': model_zeros_like, 'ones_like': model_ones_like,
     'real': model_real, 'imag': model_imag, 'isclose': model_isclose,
+    'sqrt': _method_ufunc('sqrt'), 'cos': _method_ufunc('cos'), 'sin': _method_ufunc('sin'), 'arccosh': _method_ufunc('arccosh'),
+    'arcsinh': _method_ufunc('arcsinh'), 'arccos': _method_ufunc('arccos'), 'arcsin': _method_ufunc('arcsin'), 'exp': _method_ufunc('exp'),
+    'sinh': _method_ufunc('sinh'), 'cosh': _method_ufunc('cosh'), 'tanh': _method_ufunc('tanh'), 'tan': _method_ufunc('tan'), 'arctan': _method_ufunc('arctan'),
 }
 _LA_PATCHES = {
     'inv': model_inv, 'det': model_det, 'norm': model_norm,
